@@ -78,6 +78,9 @@ IsFix(x) == /\ x \in Seq(Int) /\ Len(x) = 2 /\ x[1] >= 0 /\ x[2] >= 0 /\ x[2] < 
 \* ceil(H * 1000) ; "big" (> 10^9 nano) is reported as Nano (callers skip)
 TolNano(h) == IF h[1] >= 1000000 THEN Nano
               ELSE h[1] * 1000 + (h[2] \div 1000000) + 1
+\* the same for a threshold of eps nano units (eps = 1000 is the solver's 10^-6)
+TolNanoE(h, eps) == IF h[1] >= Nano \div eps THEN Nano
+                    ELSE h[1] * eps + ((h[2] \div 1000000) * eps) \div 1000 + 1
 
 -----------------------------------------------------------------------------
 (* Determinants.  M is a function [1..k -> [1..k -> Int]].                 *)
